@@ -257,6 +257,39 @@ pub fn run_c06(args: &Args) -> Report {
             rep.sample(format!("project with sources {:?}: verify {:?} after tampering one output => {}", p.sources, vcfg.inputs, runner.cases[runner.cases.len() - 2].imp.verdict));
         }
     }
+    // a source that reads back its own temp file: after the temp block's body is edited, the output on disk is stale
+    // even though the old temp file is still lying there - verify has to compute the fresh output from the fresh temp content
+    if args.shard == 0 {
+        for (k, reader) in ["TXTPP#include tinc_0.tmp", "# TXTPP#run cat tinc_0.tmp"].iter().enumerate() {
+            for crlf in [false, true] {
+                let le = if crlf { "\r\n" } else { "\n" };
+                let src = |body: &str| format!("head{le}-TXTPP#temp tinc_0.tmp{le}-{body}{le}~{le}{reader}{le}end{le}").into_bytes();
+                let p = Project {
+                    files: vec![("tinc.txt.txtpp".into(), src("one"))],
+                    dirs: vec![],
+                    cmds: vec![("cat tinc_0.tmp".into(), vec![Act { kind: "cat", arg: "tinc_0.tmp".into() }])],
+                    sources: vec!["tinc.txt.txtpp".into()],
+                    sig: vec![],
+                    expect_error: false,
+                };
+                materialize(&p, &runner.dir);
+                let mut cfg = RunCfg::build_all();
+                cfg.threads = 2;
+                let b = runner.run_here(&cfg, &p.cmds, vec![format!("temp-readback|{k}|{crlf}|build")], "temp read back: build");
+                let mut vcfg = cfg.clone();
+                vcfg.mode = "verify";
+                let v0 = runner.run_here(&vcfg, &p.cmds, vec![format!("temp-readback|{k}|{crlf}|verify-fresh")], "temp read back: verify of the fresh tree");
+                if runner.cases[b].imp.verdict != "ok" || runner.cases[v0].imp.verdict != "ok" {
+                    viol(&mut rep, &runner, v0, format!("C06: build + verify of a source that reads back its temp file ({reader}) gives `{}` / `{}`", runner.cases[b].imp.verdict, runner.cases[v0].imp.verdict));
+                }
+                let _ = std::fs::write(runner.dir.join("tinc.txt.txtpp"), src("two"));
+                let v1 = runner.run_here(&vcfg, &p.cmds, vec![format!("temp-readback|{k}|{crlf}|verify-after-edit")], "temp read back: verify after the temp body was edited");
+                if runner.cases[v1].imp.verdict == "ok" {
+                    viol(&mut rep, &runner, v1, format!("C06: verify passes after the body of the temp block was edited although the output (which reads the temp file back with `{reader}`) is stale"));
+                }
+            }
+        }
+    }
     report_side_condition(&mut rep, &model, &safe_reqs);
     compare_all(&mut rep, &runner, &model, "C06", "C06.stream_compare_iff, verify_ok_iff_uptodate, verify_open_readonly, verify_untouched");
     runner.cleanup();
@@ -306,6 +339,19 @@ pub fn run_c07(args: &Args) -> Report {
             let s0 = p.sources[0].clone();
             let c = p.file_mut(&s0).unwrap();
             let mut add = b"-TXTPP#temp keep.txtpp.md\n-gone\n~\n".to_vec();
+            if !c.ends_with(b"\n") && !c.is_empty() {
+                add.insert(0, b'\n');
+            }
+            c.extend_from_slice(&add);
+        }
+        // an erroneous temp directive whose target is an existing directory, followed by a good one: build fails on
+        // it, clean ignores it (nothing to remove there) and still removes what the rest of the source names
+        if rng.chance(1, 5) && !p.dirs.is_empty() {
+            let d = rng.pick(&p.dirs).clone();
+            let s0 = p.sources[0].clone();
+            let up = "../".repeat(s0.matches('/').count());
+            let c = p.file_mut(&s0).unwrap();
+            let mut add = format!("~\n-TXTPP#temp {up}{d}\n-x\n~\n").into_bytes();
             if !c.ends_with(b"\n") && !c.is_empty() {
                 add.insert(0, b'\n');
             }
